@@ -564,9 +564,17 @@ func (e *env) replayCorpus(t *testing.T) {
 				MaxTx int `json:"max_tx"`
 				Rule  int `json:"rule"`
 			} `json:"api"`
+			App *struct {
+				InitSeqs []uint64 `json:"init_seqs"`
+				Built    int      `json:"built"`
+			} `json:"app"`
 			Ops [][]json.RawMessage `json:"ops"`
 		}
 		if json.Unmarshal(b, &doc) != nil || len(doc.Ops) == 0 {
+			continue
+		}
+		if doc.App != nil { // a history of the real application through ABCI
+			e.replayAppCorpus(doc.App.InitSeqs, doc.App.Built, doc.Ops)
 			continue
 		}
 		tagOf := func(o []json.RawMessage) (tag string) { json.Unmarshal(o[0], &tag); return }
